@@ -48,6 +48,13 @@ def v2p_text(variable, positive):
     return z3.If(positive, z3.Concat(z3.StringVal("b1_"), variable), z3.Concat(z3.StringVal("b0_"), variable))
 
 
+def _p2v_apply(eng, st, c, argmap, exprmap, node):
+    """call sites: the abstract projections of a place name; the call raises for a non-place, so the caller must know it is one"""
+    p = argmap["place"].t
+    eng.oblige(st, f"pre.place_to_variable.is_a_place_name@{node.lineno}", P.is_place(p), node.lineno, kind="pre")
+    return ENG._PyTuple([Val(TName, P.pvar(p)), vbool(P.ppos(p))])
+
+
 def install(reg):
     from pyvc.strmodel import TStr
     # The two string functions are verified over real strings (String theory) under the names *.text;
@@ -70,7 +77,7 @@ def install(reg):
             z3.Or(z3.PrefixOf(z3.StringVal("b1_"), c.place), z3.PrefixOf(z3.StringVal("b0_"), c.place)),
             TT.get(c.result, 1) == z3.PrefixOf(z3.StringVal("b1_"), c.place),
             c.place == v2p_text(TT.get(c.result, 0), TT.get(c.result, 1))))],
-        custom_apply=lambda eng, st, c, argmap, exprmap, node: ENG._PyTuple([Val(TName, P.pvar(argmap["place"].t)), vbool(P.ppos(argmap["place"].t))]),
+        custom_apply=_p2v_apply,
     ))
 
     def post(c):
